@@ -1127,6 +1127,14 @@ mzd_t *mzd_transpose(mzd_t *DST, mzd_t const *A) {
   if (A->nrows == 0 || A->ncols == 0)
     return mzd_copy(DST, A);
 
+  if (__M4RI_UNLIKELY(mzd_is_dangerous_window(A))) {
+    /* the kernels read whole words: a window with excess bits must be copied first */
+    mzd_t *Abar = mzd_copy(NULL, A);
+    mzd_transpose(DST, Abar);
+    mzd_free(Abar);
+    return DST;
+  }
+
   rci_t maxsize = MAX(A->nrows, A->ncols);
   if (__M4RI_LIKELY(!mzd_is_dangerous_window(DST))) {
     _mzd_transpose(DST->data, A->data, DST->rowstride, A->rowstride, A->nrows, A->ncols, maxsize);
